@@ -9,6 +9,7 @@ import (
 	"net/http"
 	"net/url"
 	"sort"
+	"strings"
 	"sync"
 	"time"
 
@@ -604,7 +605,8 @@ type fakeCommon struct{ w *world }
 
 func (f fakeCommon) auth(name string, rw http.ResponseWriter) (bool, error) {
 	if f.w.call(name, true) {
-		return false, f.w.failed()
+		// the flag that accompanies an error means nothing ("authenticated is ignored"): the adversarial value is returned
+		return true, f.w.failed()
 	}
 	switch f.w.spec["auth"] {
 	case "denied":
@@ -617,7 +619,7 @@ func (f fakeCommon) auth(name string, rw http.ResponseWriter) (bool, error) {
 		}
 		return false, nil
 	case "error":
-		return false, f.w.failed()
+		return true, f.w.failed()
 	}
 	f.w.resp(okR(true))
 	return true, nil
@@ -780,6 +782,8 @@ func (f fakeFed) FilterForwarding(c context.Context, potentialRecipients []*url.
 			out = potentialRecipients
 		}
 	case []interface{}:
+		// filtering in place is allowed (only the activity must not be modified): the caller's slice is overwritten
+		out = potentialRecipients[:0]
 		for _, e := range v {
 			if s, ok := e.(string); ok {
 				u, _ := url.Parse(s)
@@ -863,7 +867,10 @@ func (f fakeClock) Now() time.Time {
 	if zone != 0 {
 		loc = time.FixedZone("", zone*60)
 	}
-	return time.Unix(unix, 0).In(loc)
+	// the instant has a sub-second part (derived from the second, anywhere in [0.000000999, 0.999000999]): every
+	// documented use of the clock truncates it
+	nanos := ((unix%1000+1000)%1000*7919%1000)*1000000 + 999
+	return time.Unix(unix, nanos).In(loc)
 }
 
 type countingWriter struct {
@@ -882,7 +889,7 @@ func (c *countingWriter) WriteHeader(code int) {
 	}
 	sort.Strings(keys)
 	for _, k := range keys {
-		hs[k] = c.header.Get(k)
+		hs[k] = strings.Join(c.header.Values(k), " | ")
 	}
 	c.w.call("writeHeader", false, float64(code), hs)
 	c.w.resp(nil)
